@@ -501,7 +501,11 @@ func mvRunScenario(t *tr.W, sc *mvScript) string {
 		iters: map[int]*mvIter{}, nodes: map[int]*skiplist.Node{}}
 	t.Emit(tr.Ev{"e": "Init", "cfg": sc.Cfg})
 	for _, op := range sc.Ops {
-		if !r.exec(op) {
+		ok := true
+		if guarded(t, func() { ok = r.exec(op) }) {
+			return "" // the Panic event carries the verdict; the instance is abandoned
+		}
+		if !ok {
 			break
 		}
 	}
@@ -727,7 +731,11 @@ func mvRandom(t *tr.W, g *mvGen, length int) string {
 				op = F("NewSnapshot")
 			}
 		}
-		if !r.exec(op) {
+		ok := true
+		if guarded(t, func() { ok = r.exec(op) }) {
+			return ""
+		}
+		if !ok {
 			break
 		}
 	}
